@@ -29,6 +29,7 @@ class Run:
         self.counts = {}
         self.analysed = {"configs": [], "functions": set(), "entries": []}
         self.notes = []
+        self.unknown_calls = {}   # summary key of an unmodelled external callee -> entries whose cone reaches it
         self.explanation = ""
         self.level = "other"
         self.trusted = []
@@ -47,6 +48,9 @@ class Run:
 
     def run_entry(self, ex, rec, **kw):
         res = ex.run_entry(rec, **kw)
+        for n in res.notes:
+            if n.get("what") == "unknown_call":
+                self.unknown_calls.setdefault(n.get("key") or n.get("callee"), set()).add(rec["pretty"])
         self.analysed["functions"] |= res.cone
         self.analysed["entries"].append("%s[%s]" % (rec["pretty"], ex.F.config))
         return res
@@ -104,9 +108,11 @@ class Run:
     def export(self):
         return {"obligations": self.obligations, "violations": self.violations, "samples": self.samples, "counts": self.counts,
                 "analysed": {"configs": self.analysed["configs"], "functions": sorted(self.analysed["functions"]), "entries": self.analysed["entries"]},
-                "notes": self.notes}
+                "notes": self.notes, "unknown_calls": {k: sorted(v) for k, v in self.unknown_calls.items()}}
 
     def absorb(self, d):
+        for k, v in d.get("unknown_calls", {}).items():
+            self.unknown_calls.setdefault(k, set()).update(v)
         have = set((o["rule"], o["key"]) for o in self.obligations)
         for o in d["obligations"]:
             if (o["rule"], o["key"]) not in have:
@@ -210,6 +216,12 @@ def main(argv):
         tb = traceback.format_exc()
         R.undecided("ENGINE", "engine|crash", "checker crashed: %s\n%s" % (e, tb[-1500:]))
 
+    # an external function without a contract in summaries.py is opaque: whatever it does to its arguments or the
+    # hardware is invisible to every rule whose cone reaches it, so no rule may pass over it
+    for k, v in sorted(R.unknown_calls.items()):
+        R.undecided("ENGINE", "engine|unmodelled-call|%s" % k,
+                    "the code analysed for this property calls %s, for which the interpreter has no contract (reached from %s): "
+                    "its effect is opaque, the rule cannot be decided" % (k, ", ".join(sorted(v)[:3])))
     known, fixed = load_known()
     ev_dir = os.environ.get("VERIF_EVIDENCE_DIR") or os.path.join(VERIF, "evidence")
     rp_dir = os.path.join(os.path.dirname(ev_dir), "replay") if os.environ.get("VERIF_EVIDENCE_DIR") else os.path.join(VERIF, "replay")
